@@ -4,36 +4,37 @@ package sim
 
 // Feat are the swarm knobs of one run.
 type Feat struct {
-	NT            int // payload types K0..K(NT-1)
-	Names         []string
-	Groups        []string
-	MaxScopes     int
-	MaxDepth      int
-	MaxOps        int
-	Export        bool
-	Objects       bool
-	Optional      bool
-	Soft          bool
-	Flatten       bool
-	As            bool
-	Decorators    bool
-	GroupDecs     bool
-	Variadic      bool
-	Callbacks     bool
-	Info          bool
-	NamedSlice    bool
-	Wild          float64 // probability that a constructor ignores the rank discipline
-	PAvail        float64 // probability of picking an available dependency
-	PDup          float64 // probability of deliberately colliding with a provided key
-	FaultRate     float64
-	FaultInv      float64
-	PRetry        float64
-	Slow          bool
-	VisStr        float64 // probability weight of Visualize/String ops
-	Catalog       bool
-	MalRate    float64 // probability of inserting a call from the malformed grammar before an op
-	MalTagsOnly bool
-	DecoIntroduce bool // allow decorators for keys nobody provides (DESIGN §9 R3)
+	NT             int // payload types K0..K(NT-1)
+	Names          []string
+	Groups         []string
+	MaxScopes      int
+	MaxDepth       int
+	MaxOps         int
+	Export         bool
+	Objects        bool
+	Optional       bool
+	Soft           bool
+	Flatten        bool
+	As             bool
+	Decorators     bool
+	GroupDecs      bool
+	Variadic       bool
+	Callbacks      bool
+	Info           bool
+	NamedSlice     bool
+	Wild           float64 // probability that a constructor ignores the rank discipline
+	PAvail         float64 // probability of picking an available dependency
+	PDup           float64 // probability of deliberately colliding with a provided key
+	FaultRate      float64
+	FaultInv       float64
+	PRetry         float64
+	Slow           bool
+	VisStr         float64 // probability weight of Visualize/String ops
+	Catalog        bool
+	MalRate        float64 // probability of inserting a call from the malformed grammar before an op
+	MalTagsOnly    bool
+	VisAfterInvoke float64
+	DecoIntroduce  bool // allow decorators for keys nobody provides (DESIGN §9 R3)
 }
 
 type genCtx struct {
@@ -45,6 +46,7 @@ type genCtx struct {
 	depth []int
 	// probes / tags
 	lastInvoke int
+	catUsed    map[int]bool
 }
 
 func (g *genCtx) newFunc(role Role) *Func {
@@ -56,7 +58,7 @@ func (g *genCtx) newFunc(role Role) *Func {
 			f.DurNs = int64(1 + g.r.Intn(1000))
 		}
 	}
-	if g.ft.Info && g.r.P(0.5) {
+	if g.ft.Info && g.r.P(0.8) {
 		f.Info = true
 	}
 	return f
@@ -416,7 +418,119 @@ func (g *genCtx) opScope() {
 	g.m.AddScope(p)
 }
 
+// fromCatalog copies catalogue entry idx into the history as a new function.
+func (g *genCtx) fromCatalog(idx int) *Func {
+	spec := deepCopyFunc(&catSpecs[idx])
+	f := g.newFunc(spec.Role)
+	id, dur, info := f.ID, f.DurNs, f.Info
+	*f = spec
+	f.ID, f.DurNs, f.Info, f.Cat = id, dur, info, idx
+	if g.catUsed == nil {
+		g.catUsed = map[int]bool{}
+	}
+	g.catUsed[idx] = true
+	return f
+}
+
+// pickCat draws an unused catalogue entry in [lo, hi) that fits: with
+// probability PAvail one whose required dependencies are visible from s (and,
+// for constructors, whose keys are still free in the target scope).
+func (g *genCtx) pickCat(s, lo, hi int, fits func(spec *Func) bool) int {
+	first := -1
+	for try := 0; try < 60; try++ {
+		idx := lo + g.r.Intn(hi-lo)
+		if g.catUsed[idx] {
+			continue
+		}
+		if first < 0 {
+			first = idx
+		}
+		if fits(&catSpecs[idx]) {
+			if g.r.P(g.ft.PAvail) {
+				return idx
+			}
+			continue
+		}
+		if !g.r.P(g.ft.PAvail) {
+			return idx
+		}
+	}
+	return first
+}
+
+func (g *genCtx) depsVisible(s int, spec *Func) bool {
+	for _, p := range spec.LeafParams() {
+		if p.Key.IsGroup() || p.Opt {
+			continue
+		}
+		if len(g.m.AllProv(s, p.Key)) == 0 {
+			return false
+		}
+	}
+	return true
+}
+
+func (g *genCtx) catCtor(s int) *Func {
+	idx := g.pickCat(s, 0, catCtors, func(spec *Func) bool {
+		if !g.depsVisible(s, spec) {
+			return false
+		}
+		for _, k := range singleKeys(spec.LeafResults()) {
+			if len(g.m.S[s].Prov[k]) > 0 || len(g.m.S[0].Prov[k]) > 0 {
+				return false
+			}
+		}
+		return true
+	})
+	if idx < 0 {
+		return nil
+	}
+	f := g.fromCatalog(idx)
+	f.Export = g.ft.Export && s != 0 && g.r.P(0.3)
+	f.Callback = g.ft.Callbacks && g.r.P(0.6)
+	return f
+}
+
+func (g *genCtx) catDec(s int) *Func {
+	idx := g.pickCat(s, catCtors, catCtors+catDecs, func(spec *Func) bool {
+		if !g.depsVisible(s, spec) {
+			return false
+		}
+		for _, k := range spec.AllKeys() {
+			if g.m.S[s].Dec[k] != nil || (!k.IsGroup() && len(g.m.AllProv(s, k)) == 0) {
+				return false
+			}
+		}
+		return true
+	})
+	if idx < 0 {
+		return nil
+	}
+	f := g.fromCatalog(idx)
+	f.Callback = g.ft.Callbacks && g.r.P(0.6)
+	return f
+}
+
+func (g *genCtx) catInv(s int) *Func {
+	idx := g.pickCat(s, catCtors+catDecs, catCtors+catDecs+catInvs, func(spec *Func) bool { return g.depsVisible(s, spec) })
+	if idx < 0 {
+		return nil
+	}
+	return g.fromCatalog(idx)
+}
+
 func (g *genCtx) opProvide(s int) {
+	if g.ft.Catalog {
+		f := g.catCtor(s)
+		if f == nil {
+			return
+		}
+		i := g.addOp(Op{Kind: OpProvide, Scope: s, Fn: f.ID})
+		if g.m.PredictProvide(s, f) == PredOK {
+			g.m.AddCtor(s, i, f)
+		}
+		return
+	}
 	f := g.genCtor(s)
 	i := g.addOp(Op{Kind: OpProvide, Scope: s, Fn: f.ID})
 	if g.m.PredictProvide(s, f) == PredOK {
@@ -426,6 +540,12 @@ func (g *genCtx) opProvide(s int) {
 
 func (g *genCtx) opDecorate(s int) {
 	f := g.genDecorator(s)
+	if g.ft.Catalog {
+		if f != nil {
+			g.h.Funcs = g.h.Funcs[:len(g.h.Funcs)-1]
+		}
+		f = g.catDec(s)
+	}
 	if f == nil {
 		g.opProvide(s)
 		return
@@ -437,7 +557,19 @@ func (g *genCtx) opDecorate(s int) {
 }
 
 func (g *genCtx) opInvoke(s int) {
-	f := g.genInvoke(s)
+	defer func() {
+		if g.ft.Catalog && g.ft.VisAfterInvoke > 0 && g.r.P(g.ft.VisAfterInvoke) && len(g.h.Ops) > 0 && g.h.Ops[len(g.h.Ops)-1].Kind == OpInvoke {
+			g.addOp(Op{Kind: OpVisualize, ErrFrom: len(g.h.Ops)})
+		}
+	}()
+	var f *Func
+	if g.ft.Catalog {
+		if f = g.catInv(s); f == nil {
+			return
+		}
+	} else {
+		f = g.genInvoke(s)
+	}
 	g.addOp(Op{Kind: OpInvoke, Scope: s, Fn: f.ID})
 	for g.r.P(g.ft.PRetry) {
 		g.retryInvoke(s, f.ID)
@@ -450,6 +582,7 @@ func (g *genCtx) retryInvoke(s, fn int) {
 	id, dur, info := f.ID, f.DurNs, f.Info
 	*f = src
 	f.ID, f.DurNs, f.Info = id, dur, info
+	f.Cat = -1 // a catalogue function is bound to one spec per run: the retry uses a dynamic stub
 	g.addOp(Op{Kind: OpInvoke, Scope: s, Fn: f.ID, Retry: true})
 }
 
@@ -580,6 +713,7 @@ func (g *genCtx) randomOps(n int, mx Mix) {
 }
 
 func newGen(prop string, seed, run int64, thorough bool) *genCtx {
+	catInit()
 	r := NewRng(RunSeed(seed, prop, run))
 	g := &genCtx{r: r}
 	g.ft = BaseFeat(r, thorough)
